@@ -1,7 +1,120 @@
 import ConfModel.Driver.Common
+import ConfModel.Model.ReportScript
+import ConfModel.Spec.RunVerdict
 namespace ConfModel.Driver.C04
-open Lean ConfModel.Driver
+open Lean ConfModel.Driver ConfModel.Report ConfModel.RunVerdict
 
-def handle : Handler := fun op _inp _impl => bad ("C04: unknown op " ++ op)
+def parseKind : Char → Option Kind
+  | 'p' => some .pass | 'a' => some .assertFail | 'c' => some .clientErr | 's' => some .setupErr
+  | 'n' => some .noResult | 'r' => some .couldNotRun | 'm' => some .missing | _ => none
+
+def parseMark : Char → Option Mark
+  | 'u' => some .unmarked | 'f' => some .failing | 'k' => some .flaky | _ => none
+
+def parseBit : Char → Option Bool
+  | '0' => some false | '1' => some true | _ => none
+
+def parseStep (i : Nat) (code : String) : Option Step :=
+  match code.toList with
+  | [k, m, fb, sf] => do
+    let k ← parseKind k
+    let m ← parseMark m
+    let fb ← parseBit fb
+    let sf ← parseBit sf
+    pure { c := { name := "s/c" ++ toString i, kind := k, mark := m, feedback := fb }, sbFirst := sf }
+  | _ => none
+
+def parseSteps (codes : List String) : Option (List Step) :=
+  (codes.zipIdx.map (fun (c, i) => parseStep i c)).mapM id
+
+def handle : Handler := fun op inp impl =>
+  match op with
+  | "report" =>
+    match parseSteps (strList (field inp "cases")) with
+    | none => bad "malformed case code"
+    | some steps =>
+    if !(isNull (field impl "panic")) then
+      { agree := false, holds := false, why := "panic: " ++ str (field impl "panic") } else
+    let total := nat (field inp "total")
+    let cases := steps.map (·.c)
+    -- implementation's observation
+    let iOk := bool (field impl "ok")
+    let iTot : Totals := { passed := nat (field impl "passed"), failed := nat (field impl "failed"),
+                           expected := nat (field impl "expected"), notRun := nat (field impl "notRun") }
+    let iCases := int (field impl "total")
+    let iFailed := sortStrings (strList (field impl "failedNames"))
+    let iInfo := sortStrings (strList (field impl "infoNames"))
+    let unparsed := strList (field impl "unparsed")
+    -- model
+    let m := scriptReport total steps
+    let mTot : Totals := { passed := m.succeeded, failed := m.failed, expected := m.expectedFailures, notRun := m.couldNotRun }
+    -- the API call sequence must amount to the outcome map the theorems (`assignment_report`) speak of
+    let m2 := report (marksOf cases) total (finalMap cases) []
+    let scriptIsMap := m.ok == m2.ok && m.totalCases == m2.totalCases && m.succeeded == m2.succeeded
+      && m.failed == m2.failed && m.expectedFailures == m2.expectedFailures && m.couldNotRun == m2.couldNotRun
+      && sortStrings m.failedNames == sortStrings m2.failedNames && sortStrings m.infoNames == sortStrings m2.infoNames
+    let agree := scriptIsMap && unparsed.isEmpty && iOk == m.ok && iTot == mTot && iCases == (m.totalCases : Int)
+      && iFailed == sortStrings m.failedNames && iInfo == sortStrings m.infoNames
+    let model := Json.mkObj [("ok", m.ok), ("total", m.totalCases), ("passed", m.succeeded), ("failed", m.failed),
+      ("expected", m.expectedFailures), ("notRun", m.couldNotRun),
+      ("failedNames", toJson (sortStrings m.failedNames)), ("infoNames", toJson (sortStrings m.infoNames))]
+    let nontrivial := cases.any (fun c => c.kind != .pass || c.mark != .unmarked || c.feedback)
+    if total < cases.length then
+      -- the number of selected cases was not configured: the property does not speak; clamp only
+      { agree := agree, holds := true, nontrivial := false, model := model, cls := "unconfigured-total" }
+    else
+    let extra := total - cases.length
+    -- the property's own rule, on the implementation's output
+    let wantOk := specOk cases extra
+    let wantTot := specTotals cases extra
+    let unnamed := (specFailedNames cases).filter (fun n => !iFailed.contains n)
+    let sum := iTot.passed + iTot.failed + iTot.expected + iTot.notRun
+    let why :=
+      if iOk != wantOk then
+        "verdict: report returned " ++ toString iOk ++ " but " ++
+          (if wantOk then "every selected case ran and met its expectation"
+           else "not every selected case ran and met its expectation (" ++
+             toString (cases.filter (fun c => !c.meets) |>.map (·.name)) ++ ", unknown " ++ toString extra ++ ")")
+      else if !unnamed.isEmpty then "unnamed: failing cases not named on a FAILED line: " ++ toString unnamed
+      else if sum != total then "totals: the printed totals account for " ++ toString sum ++ " of " ++ toString total ++ " selected cases"
+      else if iTot != wantTot then "classes: printed totals " ++ reprStr iTot ++ " but the assignment has " ++ reprStr wantTot
+      else ""
+    { agree := agree, holds := why.isEmpty, nontrivial := nontrivial, model := model, why := why,
+      cls := if wantOk then "success" else "failure" }
+  | "run" =>
+    if !(isNull (field impl "panic")) then
+      { agree := false, holds := false, why := "panic: " ++ str (field impl "panic") } else
+    let client := str (field inp "client")
+    let codes := strList (field inp "cases")
+    let mk (i : Nat) (code : String) : Option Case :=
+      match code.toList with
+      | [x, m] => do
+        let m ← parseMark m
+        let k ← (match client, x with
+          | "reference", 'r' => some Kind.pass
+          | "reference", 'w' => some Kind.assertFail
+          | "exit0", _ => some Kind.couldNotRun   -- the client was gone: no case ran
+          | "exit1", _ => some Kind.couldNotRun
+          | _, _ => none)
+        pure { name := "c" ++ toString i, kind := k, mark := m, feedback := false }
+      | _ => none
+    match (codes.zipIdx.map (fun (c, i) => mk i c)).mapM id with
+    | none => bad "malformed run input"
+    | some cases =>
+    let iOk := bool (field impl "ok")
+    let iFailed := (strList (field impl "failedNames")).map (fun n => (n.splitOn "/").getLast?.getD n)
+    let want := specOk cases 0
+    let mOk := runVerdict (report (marksOf cases) cases.length (finalMap cases) []) false
+    -- with a client that really ran, every failing case must be named; when the client was gone the
+    -- cases are setup errors or could-not-run, whichever the race produced: only the verdict is fixed
+    let unnamed := if client == "reference" then (specFailedNames cases).filter (fun n => !iFailed.contains n) else []
+    let why :=
+      if iOk != want then "verdict: Run returned " ++ toString iOk ++ " with client " ++ client ++ " but " ++
+        (if want then "every selected case ran and met its expectation" else "not every selected case ran and met its expectation")
+      else if !unnamed.isEmpty then "unnamed: failing cases not named on a FAILED line: " ++ toString unnamed
+      else ""
+    { agree := iOk == mOk, holds := why.isEmpty, nontrivial := true, model := Json.mkObj [("ok", mOk)], why := why,
+      cls := client ++ (if want then ":success" else ":failure") }
+  | _ => bad ("C04: unknown op " ++ op)
 
 end ConfModel.Driver.C04
